@@ -1,7 +1,11 @@
 package props
 
 import (
+	"fmt"
+
 	"golang.org/x/tools/go/ssa"
+
+	"rtpcheck/core"
 
 	"rtpcheck/bits"
 )
@@ -62,7 +66,66 @@ func c10(c *Ctx) {
 	structC10(c)
 }
 
-var structC10 = func(c *Ctx) {}
+// structC10: after the STAP-A carrying the held parameter sets has been built, *both* held sets
+// are released (a set left behind would be re-sent with a later, different partner).
+var structC10 = func(c *Ctx) {
+	p, r := c.Prog, c.R
+	fn := p.Func("codecs.(*H264Payloader).Payload")
+	if fn == nil {
+		return
+	}
+	held := map[string]bool{} // receiver []byte fields assigned a copy of a NAL unit
+	clear := map[string][]*ssa.BasicBlock{}
+	var visit func(f *ssa.Function)
+	visit = func(f *ssa.Function) {
+		for _, b := range f.Blocks {
+			for _, in := range b.Instrs {
+				st, ok := in.(*ssa.Store)
+				if !ok {
+					continue
+				}
+				fa, ok := st.Addr.(*ssa.FieldAddr)
+				if !ok {
+					continue
+				}
+				name := core.FieldName(fa)
+				if core.IsNilConst(st.Val) {
+					clear[name] = append(clear[name], b)
+				} else if call, ok := st.Val.(*ssa.Call); ok && core.BuiltinName(call) == "append" {
+					held[name] = true
+				}
+			}
+		}
+		for _, a := range f.AnonFuncs {
+			visit(a)
+		}
+	}
+	visit(fn)
+	var names []string
+	for k := range held {
+		names = append(names, k)
+	}
+	sortStrings(names)
+	ok := len(names) == 2
+	for _, nme := range names {
+		if len(clear[nme]) == 0 {
+			ok = false
+		}
+	}
+	// the releases happen together (same block)
+	if ok && clear[names[0]][0] != clear[names[1]][0] {
+		ok = false
+	}
+	r.Add("STRUCT.release", core.FuncName(fn), "held SPS and PPS are both released after the STAP-A", p.Position(fn.Pos()), ok,
+		fmt.Sprintf("held fields %v; nil stores per field: %d/%d", names, len(clear[first(names, 0)]), len(clear[first(names, 1)])))
+}
+
+func first(s []string, i int) string {
+	if i < len(s) {
+		return s[i]
+	}
+	return ""
+}
 
 func contains(xs []uint64, v uint64) bool {
 	for _, x := range xs {
